@@ -31,11 +31,13 @@ var names = []string{
 	"remotes/o_/x", "remotes/ox/x", "remotes/O_/x", "remotes/o%/x", "remotes/o/x", "remotes/o_/y/z", "remotes/ox/y", "remotes/oxx/x", "remotes/o_",
 	"txs/" + tx1 + "/b", "txs/" + tx2 + "/b", "txs/" + tx1 + "/B",
 	"custom/x", "Heads/ab",
+	// characters that are wildcards for GLOB / regular expressions
+	"heads/a*", "heads/a?", "heads/[ab]", "remotes/o?/x", "remotes/o*/x",
 }
 
-var prefixes = []string{"", "heads/", "heads/a", "heads/a_", "heads/a%", "heads/A", "heads/ab", "tags/", "tags/a_", "remotes/", "remotes/o", "remotes/o_", "remotes/o_/", "remotes/O", "remotes/o%/", "txs/", "txs/" + tx1 + "/", "h", "H", "%", "_"}
+var prefixes = []string{"", "heads/", "heads/a", "heads/a_", "heads/a%", "heads/A", "heads/ab", "tags/", "tags/a_", "remotes/", "remotes/o", "remotes/o_", "remotes/o_/", "remotes/O", "remotes/o%/", "txs/", "txs/" + tx1 + "/", "h", "H", "%", "_", "heads/a*", "heads/a?", "heads/[ab]", "heads/[", "remotes/o?/", "remotes/o*/", "*", "?"}
 
-var remotes = []string{"o_", "ox", "O_", "o%", "o", "oxx", "zz"}
+var remotes = []string{"o_", "ox", "O_", "o%", "o", "oxx", "zz", "o?", "o*"}
 
 type Op struct {
 	K  string   `json:"k"`
@@ -413,11 +415,11 @@ func runOn(c Case, rs ref.Store, fsMode bool) (o evid.Outcome, err error) {
 		// is a proper prefix of another live name, with at least two live names
 		if len(m.vals) >= 2 {
 			for _, p := range append(append([]string{}, op.P...), op.NP...) {
-				if strings.ContainsAny(p, "_%ABCDEFGHIJKLMNOPQRSTUVWXYZ") {
+				if strings.ContainsAny(p, "_%*?[ABCDEFGHIJKLMNOPQRSTUVWXYZ") {
 					tricky = true
 				}
 			}
-			if (op.K == "delremote" || op.K == "renremote" || op.K == "listremote") && strings.ContainsAny(op.A, "_%O") {
+			if (op.K == "delremote" || op.K == "renremote" || op.K == "listremote") && strings.ContainsAny(op.A, "_%O*?") {
 				tricky = true
 			}
 		}
